@@ -165,7 +165,12 @@ def c13(ctx):
 def c18(ctx):
     from .rules import timestamp, propset
     timestamp.run(ctx)
-    propset.run(ctx, only_type_id=True)
+    # a creation time is observable again only through the saved summary stream: the value's slot in the property set (type ids, offsets measured on the
+    # bytes actually written) and the summary being marked for saving belong to the round trip of the time as much as the tick arithmetic does
+    propset.run(ctx)
+    from .rules import flush as _flush
+    _flush.dirty1(ctx)
+    _flush.dirty2(ctx)
     n = panic_module(ctx, "PANIC(timestamp)", ("src/internal/timestamp.rs",),
                      lambda f: (f.file == "src/internal/timestamp.rs" and f.kind != "Closure") or
                      re.search(r"SummaryInfo::(set_creation_time|set_creation_time_to_now|creation_time)$", f.path) is not None,
@@ -423,6 +428,8 @@ def c20(ctx):
     _codec.short_ref_bound(ctx, "LIMIT-SYM")
     _codec.ref_zero_extended(ctx, "LIMIT-SYM")
     _dml.rows_loaded(ctx)
+    from .rules import flush as _flush
+    _flush.dirty1(ctx)
     from .rules import streams as _streams
     ctx.rule("NAME-1", "streamname::is_valid admits exactly the names whose encoded form has at most 31 UTF-16 units (table names validated with the marker character counted)")
     _streams.name_limit(ctx, "NAME-1")
